@@ -279,6 +279,22 @@ def analyze(job):
                         k[1] = {"program": program, "leaf": _leaf_list(leaf), "solver": solver_kw, "expect": "accept",
                                 "culprit_ids": cu[0] if cu else None}
             res["lost"] = lost
+            if job.get("verdict", True) and not capped:
+                # the verdict of the real solve() must agree with the explored set
+                import processscheduler as ps
+                b2 = dsl.build(program)
+                with boot.quiet(capture=True) as buf:
+                    kw2 = dict(solver_kw)
+                    kw2.setdefault("max_time", 60)
+                    sol = ps.SchedulingSolver(problem=b2.pb, **kw2).solve()
+                said_unsat = (not sol) and "no solution exists" in buf.getvalue()
+                res["verdict_checked"] = 1
+                if said_unsat and kcounts["valid"] > 0 and lost < kcounts["valid"]:
+                    sig = {"dir": "verdict", "what": "no-solution-reported-but-valid-schedule-admitted", "features": features(program)}
+                    seen_sig[json.dumps(sig, sort_keys=True)] = [1, {"program": program, "leaf": [], "solver": solver_kw, "expect": "accept"}, sig]
+                if sol and stats.admitted == 0 and stats.unknown_leaves == 0:
+                    sig = {"dir": "verdict", "what": "solution-returned-but-box-empty", "features": features(program)}
+                    seen_sig[json.dumps(sig, sort_keys=True)] = [1, {"program": program, "leaf": [], "solver": solver_kw, "expect": "reject"}, sig]
         for key, (cnt, inst, sig) in seen_sig.items():
             res["viol"].append({"sig": sig, "count": cnt, "instance": inst})
         res["stats"] = {"nodes": stats.nodes, "checks": stats.checks, "admitted": stats.admitted,
